@@ -36,6 +36,12 @@ func script(w *W) string {
 	}
 	for p, n := range w.Producers {
 		fmt.Fprintf(&b, "spawn(function() use ($ch) {\n%s", nap(id))
+		if w.Payload == "loopint" && !w.ArrayPayload {
+			// the most natural producer: the loop counter itself is the payload
+			base := 1000 * (p + 1)
+			fmt.Fprintf(&b, "  for ($i = %d; $i < %d; $i++) {\n    __b(%d, \"send\", \"p%d-\" . ($i - %d));\n    $r = $ch->send($i);\n    __e(%d, $r);\n  }\n", base, base+n, id, p, base, id)
+			n = 0
+		}
 		for k := 0; k < n; k++ {
 			if w.ArrayPayload {
 				fmt.Fprintf(&b, "  $a = [\"p%d\", \"%d\"];\n  __b(%d, \"send\", \"p%d-%d\");\n  $r = $ch->send($a);\n  __e(%d, $r);\n", p, k, id, p, k, id)
@@ -143,7 +149,7 @@ func execScript(t *testing.T, w *W, s hx.Sched) *hx.Outcome {
 			switch v := a[1].(type) {
 			case *data.IntValue:
 				// an integer payload 1000*(p+1)+k stands for "p<p>-<k>"
-				if w.Payload == "int" && v.Value >= 1000 {
+				if (w.Payload == "int" || w.Payload == "loopint") && v.Value >= 1000 {
 					ret = fmt.Sprintf("p%d-%d", v.Value/1000-1, v.Value%1000)
 				} else if w.Payload == "float" {
 					ret = fmt.Sprintf("int(%d)-instead-of-float", v.Value)
